@@ -466,11 +466,13 @@ Lemma val4_factor s e m p : 0 < p ->
   (val4 s e m p == inject_Z (s * m) * (two_pow e / inject_Z p))%Q.
 Proof. intros Hp. unfold val4. rewrite inject_Z_mult. field. apply inject_Z_nz; lia. Qed.
 
-Lemma compare_exact a0 b0 : wf a0 -> wf b0 -> f_inf a0 = false -> f_nan a0 = false -> f_inf b0 = false -> f_nan b0 = false ->
-  (f_s a0 = f_s b0 \/ 0 < f_m a0 \/ 0 < f_m b0) ->
-  FPNum_compare a0 b0 = cmpZ (Qcompare (fval a0) (fval b0)).
+(* finite operands, for every version of the code: with the zero repair no guard is needed *)
+Lemma compare_finite_with inf_fix zero_fix a0 b0 : wf a0 -> wf b0 ->
+  f_inf a0 = false -> f_nan a0 = false -> f_inf b0 = false -> f_nan b0 = false ->
+  (zero_fix = true \/ f_s a0 = f_s b0 \/ 0 < f_m a0 \/ 0 < f_m b0) ->
+  FPNum_compare_with inf_fix zero_fix a0 b0 = cmpZ (Qcompare (fval a0) (fval b0)).
 Proof.
-  intros Wa Wb Ia Na Ib Nb G. unfold FPNum_compare. rewrite Ia, Na, Ib, Nb. cbn [orb andb].
+  intros Wa Wb Ia Na Ib Nb G. unfold FPNum_compare_with. rewrite Ia, Na, Ib, Nb. cbn [orb andb].
   destruct (wf_fin_ok a0 Wa Ia Na) as [[Ma Pa] PWa]. destruct (wf_fin_ok b0 Wb Ib Nb) as [[Mb Pb] PWb].
   destruct Wa as [Sa _], Wb as [Sb _].
   destruct (FPNum4_spec (f_s a0) (f_e a0) (f_m a0) (f_p a0) Ma Pa) as (S1 & _ & _ & O1 & V1 & W1 & R1 & _).
@@ -492,12 +494,25 @@ Proof.
   assert (Ga : 0 < f_m a0 -> 0 < f_m a) by (intros H; apply al_ma0; specialize (R1 H); lia).
   assert (Gb : 0 < f_m b0 -> 0 < f_m b) by (intros H; apply al_mb0; specialize (R2 H); lia).
   unfold sign_ok in Sa, Sb. rewrite <- Sa' in Sa. rewrite <- Sb' in Sb. rewrite <- Sa', <- Sb' in G.
+  (* the repaired early exit *)
+  destruct (zero_fix && (f_m a =? 0) && (f_m b =? 0)) eqn:ZF.
+  { apply andb_prop in ZF as [ZF Zb]. apply andb_prop in ZF as [_ Za].
+    apply Z.eqb_eq in Za, Zb. rewrite Za, Zb, !Z.mul_0_r. reflexivity. }
+  assert (G' : f_s a = f_s b \/ 0 < f_m a \/ 0 < f_m b).
+  { destruct G as [-> | G]; [|tauto]. cbn [andb] in ZF.
+    destruct (Z.eqb_spec (f_m a) 0); destruct (Z.eqb_spec (f_m b) 0); cbn in ZF; try discriminate; lia. }
+  clear G ZF.
   destruct Sa as [Sa | Sa], Sb as [Sb | Sb]; rewrite Sa, Sb in *; cbn [Z.eqb Pos.eqb andb orb].
   - destruct (Z.compare_spec (1 * f_m a) (1 * f_m b)); destruct (Z.eqb_spec (f_m a) (f_m b)); destruct (Z.gtb_spec (f_m a) (f_m b)); cbn [cmpZ]; lia.
   - destruct (Z.compare_spec (1 * f_m a) (-1 * f_m b)); cbn [cmpZ]; lia.
   - destruct (Z.compare_spec (-1 * f_m a) (1 * f_m b)); cbn [cmpZ]; lia.
   - destruct (Z.compare_spec (-1 * f_m a) (-1 * f_m b)); destruct (Z.eqb_spec (f_m a) (f_m b)); destruct (Z.gtb_spec (f_m a) (f_m b)); cbn [cmpZ]; lia.
 Qed.
+
+Lemma compare_exact a0 b0 : wf a0 -> wf b0 -> f_inf a0 = false -> f_nan a0 = false -> f_inf b0 = false -> f_nan b0 = false ->
+  (f_s a0 = f_s b0 \/ 0 < f_m a0 \/ 0 < f_m b0) ->
+  FPNum_compare a0 b0 = cmpZ (Qcompare (fval a0) (fval b0)).
+Proof. intros. apply compare_finite_with; auto. Qed.
 
 (* the guard is needed: -0 is ordered below +0 although both denote 0 ... *)
 Lemma compare_signed_zero :
@@ -515,4 +530,49 @@ Proof. vm_compute. split; reflexivity. Qed.
 Lemma compare_inf_fin a b : f_nan a = false -> f_nan b = false ->
   (f_inf a = true -> f_inf b = false -> FPNum_compare a b = f_s a) /\
   (f_inf a = false -> f_inf b = true -> FPNum_compare a b = - f_s b).
-Proof. intros Na Nb. unfold FPNum_compare. rewrite Na, Nb. split; intros -> ->; reflexivity. Qed.
+Proof. intros Na Nb. unfold FPNum_compare, FPNum_compare_with. rewrite Na, Nb. split; intros -> ->; reflexivity. Qed.
+
+(* ------------------------------------------------------------------ compare with both repairs: a total order statement *)
+(* all well-formed operands that are not NaN, infinities and signed zeros included *)
+Lemma compare_total a b : wf a -> wf b -> f_nan a = false -> f_nan b = false ->
+  FPNum_compare_with true true a b = xcmpZ (xval a) (xval b).
+Proof.
+  intros Wa Wb Na Nb. pose proof Wa as [Sa _]. pose proof Wb as [Sb _]. unfold sign_ok in Sa, Sb.
+  destruct (f_inf a) eqn:Ia; destruct (f_inf b) eqn:Ib.
+  - unfold FPNum_compare_with. rewrite Na, Nb, Ia, Ib. cbn [orb andb]. rewrite (xval_inf a Na Ia), (xval_inf b Nb Ib).
+    destruct Sa as [-> | ->], Sb as [-> | ->]; reflexivity.
+  - unfold FPNum_compare_with. rewrite Na, Nb, Ia, Ib. cbn [orb andb]. rewrite (xval_inf a Na Ia), (xval_fin b Ib Nb).
+    destruct Sa as [-> | ->]; reflexivity.
+  - unfold FPNum_compare_with. rewrite Na, Nb, Ia, Ib. cbn [orb andb]. rewrite (xval_inf b Nb Ib), (xval_fin a Ia Na).
+    destruct Sb as [-> | ->]; reflexivity.
+  - rewrite (xval_fin a Ia Na), (xval_fin b Ib Nb). cbn [xcmpZ]. apply compare_finite_with; auto.
+Qed.
+
+(* each repair alone removes exactly its defect *)
+Lemma compare_inf_fixed a b : sign_ok a -> sign_ok b -> f_nan a = false -> f_nan b = false -> f_inf a = true -> f_inf b = true ->
+  forall zf, FPNum_compare_with true zf a b = xcmpZ (xval a) (xval b).
+Proof.
+  intros Sa Sb Na Nb Ia Ib zf. unfold FPNum_compare_with. rewrite Na, Nb, Ia, Ib. cbn [orb andb]. rewrite (xval_inf a Na Ia), (xval_inf b Nb Ib).
+  unfold sign_ok in Sa, Sb. destruct Sa as [-> | ->], Sb as [-> | ->]; reflexivity.
+Qed.
+
+(* ------------------------------------------------------------------ reduceExponentPrecision (repaired) *)
+Lemma reduce_exponent_spec x prec : 1 <= prec -> 0 < f_p x ->
+  let y := FPNum_reduceExponentPrecision x prec in
+  let e_bias := (2 ^ prec - 1) / 2 in
+  f_s y = f_s x /\ f_m y = f_m x /\ f_nan y = f_nan x /\ (fval y == fval x)%Q /\ - (e_bias - 1) <= f_e y /\
+  f_inf y = (f_inf x || (f_e x + e_bias >=? 2 ^ prec - 1)).
+Proof.
+  intros Hp Hpp. cbv zeta. unfold FPNum_reduceExponentPrecision. cbv zeta. rewrite shl1 by lia. rewrite shr_1.
+  set (eb := (2 ^ prec - 1) / 2). pose proof (pow2_le 1 prec ltac:(lia)) as P2. change (2 ^ 1) with 2 in P2.
+  assert (Heb : 0 <= eb) by (unfold eb; apply Z.div_pos; lia).
+  assert (Hmask : eb + eb <= 2 ^ prec - 1) by (unfold eb; pose proof (Z.div_mod (2 ^ prec - 1) 2 ltac:(lia)); pose proof (Z.mod_pos_bound (2 ^ prec - 1) 2 ltac:(lia)); lia).
+  destruct (Z.ltb_spec (f_e x) (- (eb - 1))) as [L | G].
+  - cbn [f_s f_e f_m f_p f_inf f_nan]. rewrite shl_n by lia.
+    replace (f_e x + eb >=? 2 ^ prec - 1) with false by lia. rewrite orb_false_r.
+    repeat split; try lia. rewrite !fval_val4; cbn [f_s f_e f_m f_p].
+    replace (- (eb - 1)) with (f_e x + (- (eb - 1) - f_e x)) at 1 by lia. apply val_scale_p; lia.
+  - destruct (f_e x + eb >=? 2 ^ prec - 1) eqn:C; cbn [f_s f_e f_m f_p f_inf f_nan].
+    + rewrite orb_true_r. repeat split; first [lia | reflexivity].
+    + rewrite orb_false_r. repeat split; first [lia | reflexivity].
+Qed.
